@@ -64,7 +64,7 @@ def worker(a):
         w = L.W[modname]
         w1 = L.TWO_PI if w else 1.0
         for u in us:
-            cell0 = L.cell_from_metric(G, u)
+            cell0 = L.as_container(L.cell_from_metric(G, u), rec["D"] + len(rec["path"]))
             rmet = w1 * w1 * L.sym([x / (u * det) for x in adj])
             tag = "xfab.%s metric %s u=%.4g rodrigues %s/%s" % (modname, G, u, rec["p"], rec["q"])
             rep = "U"
@@ -83,7 +83,10 @@ def worker(a):
                 for step in rec["path"]:
                     n += 1
                     if step == "u_to_ubi":
-                        ubi = np.asarray(mod.u_to_ubi(cur, cell0), dtype=float)
+                        ubi, rep_msg = L.twice(mod.u_to_ubi, cur, cell0)
+                        ubi = np.asarray(ubi, dtype=float)
+                        if rep_msg:
+                            out.append(rep_msg + " (%s)" % tag)
                         if not L.close(ubi.dot(ubi.T), u * L.sym(G)):
                             out.append("u_to_ubi: UBI.UBI' is not the direct metric tensor - rows are not the lattice vectors (%s)" % tag)
                         B = np.asarray(mod.form_b_mat(cell0), dtype=float)
@@ -94,7 +97,10 @@ def worker(a):
                                 break
                         cur, rep = ubi, "ubi"
                     elif step == "ubi_to_u":
-                        U = np.asarray(mod.ubi_to_u(cur), dtype=float)
+                        U, rep_msg = L.twice(mod.ubi_to_u, cur)
+                        U = np.asarray(U, dtype=float)
+                        if rep_msg:
+                            out.append(rep_msg + " (%s)" % tag)
                         if not L.close(U, Uex, scale=1.0):
                             out.append("ubi_to_u(u_to_ubi(U)) differs from U by %.3g (%s)" % (float(np.abs(U - Uex).max()), tag))
                         cur, rep = U, "U"
@@ -104,7 +110,9 @@ def worker(a):
                             out.append("ubi_to_cell gives %s, the cell was %s (%s)" % ([float(x) for x in c], cell0, tag))
                         rep = "cell"
                     elif step == "ubi_to_u_b":
-                        U, B = mod.ubi_to_u_b(cur)
+                        (U, B), rep_msg = L.twice(mod.ubi_to_u_b, cur)
+                        if rep_msg:
+                            out.append(rep_msg + " (%s)" % tag)
                         out += checkUB(U, B, "ubi_to_u_b")
                         rep = "UB"
                     elif step == "ub_to_u_b":
